@@ -3,7 +3,7 @@ import itertools
 from paths import explore
 from sym import fmt, walk
 from callgraph import CallGraph
-from rules.common import Anchors, path_calls, ret_kind, arg_locs, arg_loc
+from rules.common import adt_base, Anchors, path_calls, ret_kind, arg_locs, arg_loc
 import rules.C11 as C11
 import stdmodel as SM
 
@@ -40,7 +40,7 @@ def find_check_fn(ctx, A, R):
     def first_local_call(f):
         for p in explore(f, max_visits=1):
             for (k, bid, callee, args, t) in path_calls(p):
-                if callee in lib.fns and lib.fns[callee].impl and lib.fns[callee].impl['self_ty'].startswith(A.builder):
+                if callee in lib.fns and lib.fns[callee].impl and adt_base(lib.fns[callee].impl['self_ty']) == A.builder:
                     return callee
         return None
     ca, ci = first_local_call(add), first_local_call(ins)
@@ -256,11 +256,11 @@ def r06_3_dominance(ctx, A, chk, add, ins):
             names = [c[2] for c in calls]
             if chk.path not in names:
                 # a path with builder mutation but no check
-                mut = [c for c in calls if c[2] in lib.fns and c[2] != chk.path and lib.fns[c[2]].impl and lib.fns[c[2]].impl['self_ty'].startswith(A.builder)]
+                mut = [c for c in calls if c[2] in lib.fns and c[2] != chk.path and lib.fns[c[2]].impl and adt_base(lib.fns[c[2]].impl['self_ty']) == A.builder]
                 ctx.check(R3, not mut, 'guarded:' + f.path, 'a path of %s reaches %s without running the ordering check' % (f.path, [m[2] for m in mut]), fn=f)
                 continue
             ic = names.index(chk.path)
-            before = [c for c in calls[:ic] if c[2] in lib.fns and lib.fns[c[2]].impl and lib.fns[c[2]].impl['self_ty'].startswith(A.builder)]
+            before = [c for c in calls[:ic] if c[2] in lib.fns and lib.fns[c[2]].impl and adt_base(lib.fns[c[2]].impl['self_ty']) == A.builder]
             ctx.check(R3, not before, 'guarded:' + f.path, 'builder routine %s runs before the ordering check' % [b[2] for b in before], fn=f)
             sites += 1
             # mode constant
@@ -333,7 +333,7 @@ def r06_6(ctx, A, chk):
     ins_out = None
     for p in explore(add, max_visits=1):
         for (k, bid, callee, args, t) in path_calls(p):
-            if callee in lib.fns and lib.fns[callee].impl and lib.fns[callee].impl['self_ty'].startswith(A.builder) and callee != chk.path:
+            if callee in lib.fns and lib.fns[callee].impl and adt_base(lib.fns[callee].impl['self_ty']) == A.builder and callee != chk.path:
                 ins_out = callee
     if ins_out is None:
         ctx.missing(R, 'anchor:insert-routine', 'inserting routine not found')
